@@ -152,7 +152,7 @@ def run(prog: Program, res: Result, tier: str) -> None:
             okw = False
     fsk = flow_of(sk)
     mv_nodes = {fsk.cfg.node_for(c) for c in calls_in_body(sk.node) if dotted(c.func) == "self._seek_set"}
-    okw = okw and len(moves) == 2 and fsk.cfg.must_pass(fsk.cfg.entry, fsk.cfg.exit, mv_nodes)
+    okw = okw and len({e.text() for e in moves}) == 2 and fsk.cfg.must_pass(fsk.cfg.entry, fsk.cfg.exit, mv_nodes)
     (res.ok if okw else res.bad)("R3", sk, sk.node, "seek: whence 0 -> absolute, 1 -> current stream position + offset, anything else raises" if okw else
                                  "seek no longer maps whence 0/1 to absolute/relative stream offsets (or accepts other values)", construct="seek", key="seek:whence")
     rb = prog.func(READERS, "FilReader.read_block")
@@ -179,7 +179,11 @@ def run(prog: Program, res: Result, tier: str) -> None:
     nfs = normal_form(ss)
     FID = "np.where(offset < self.sinfo.cumsum_datalens)[0][0]"
     enters = nfs.calls("self._seek2hdr")
-    ok = len(enters) == 1 and enters[0].text() == canon(f"self._seek2hdr({FID})")
+    # np.searchsorted(cumsum, offset, side="right") is the same index: the first i with offset < cumsum[i] (cumsum is non-decreasing)
+    FID_ALT = "np.searchsorted(self.sinfo.cumsum_datalens, offset, side='right')"
+    fid_used = next((f_ for f_ in (FID, FID_ALT) if enters and enters[0].text() == canon(f"self._seek2hdr({f_})")), None)
+    ok = bool(enters) and fid_used is not None and len({e.text() for e in enters}) == 1
+    FID = fid_used or FID
     (res.ok if ok else res.bad)("R4", ss, ss.node, "file = first index with offset < cumulative data length, entered through _seek2hdr at its header end" if ok else
                                 "_seek_set no longer enters, through _seek2hdr, the first file whose cumulative data length exceeds the offset (strict <): "
                                 f"{[e.text() for e in enters]}", key="_seek_set:fileid", construct="fileid")
@@ -195,7 +199,7 @@ def run(prog: Program, res: Result, tier: str) -> None:
     covered = bool(raw_seeks) and flow.cfg.must_pass(flow.cfg.entry, flow.cfg.exit, {flow.cfg.node_for(c) for c in raw_seeks})
     for e in inseeks:
         in_first = e.under(f"{FID} == 0")
-        after = bool(enters) and nfs.before(enters[0], e)
+        after = bool(enters) and any(nfs.before(en, e) for en in enters)
         key = f"_seek_set:inseek:{'first' if in_first else 'later'}"
         good = after and covered and (e.text() in later or e.text() in both or (in_first and e.text() in first))
         if good:
